@@ -163,6 +163,11 @@ inductive Reach (s0 : Sys) : Sys → Prop where
   | init : Reach s0 s0
   | step {s s' : Sys} : Reach s0 s → Step s s' → Reach s0 s'
 
+/-- reachable in exactly `n` steps -/
+inductive ReachN (s0 : Sys) : Nat → Sys → Prop where
+  | init : ReachN s0 0 s0
+  | step {n : Nat} {s s' : Sys} : ReachN s0 n s → Step s s' → ReachN s0 (n + 1) s'
+
 def pRank : PPhase → Nat
   | .writing => 2 | .draining => 1 | .joined => 0
 def cRank : CPhase → Nat
